@@ -248,11 +248,19 @@ class Prover:
         'unknown' conjunct is retried without the quantified hypotheses (fewer hypotheses:
         still a proof if it succeeds)."""
         parts = split_goal(goal if not isinstance(goal, bool) else z3.BoolVal(goal))
+        hyp_ids = None
         worst = ("proved", "syntactic", 0.0, None, None)
         order = {"proved": 0, "unknown": 1, "refuted": 2}
         total = 0.0
         for g in parts:
             r = None
+            if z3.is_quantifier(g) or z3.is_app(g):
+                if hyp_ids is None:
+                    hyp_ids = {h.get_id() for h in split_hyps(hyps)}
+                if g.get_id() in hyp_ids:
+                    # the conjunct is literally one of the hypotheses
+                    self.stats["syntactic"] += 1
+                    continue
             if is_nonlinear(g):
                 st, dt = self.check_nra(hyps, g, timeout_ms=min(self.timeout_ms, 8000))
                 if st == "unsat":
